@@ -169,7 +169,9 @@ func main() {
 			f := strings.Fields(line)
 			switch f[0] {
 			case "R":
-				trackIdStatus = [TRACK_ID_END]uint32{}
+				for i := range trackIdStatus { // whatever the element type of the rendered runtime is
+					trackIdStatus[i] = 0
+				}
 				fmt.Fprintln(out, "ok")
 			case "S":
 				fmt.Fprintln(out, drvOps(f[1:]))
